@@ -569,8 +569,17 @@ func upsertRecordsWhatItReports(c *Ctx, rule string) {
 		c.viol(rule, "anchor-lost:UpsertHash", "", "FSEventHandler.UpsertHash (exported) not found")
 		return
 	}
-	// the test-and-set may live in a method of the registry's own type that UpsertHash forwards to
-	for depth := 0; depth < 3 && len(fd.Body.List) == 1; depth++ {
+	var hashParam types.Object
+	for _, prm := range paramObjs(info, fd) {
+		if prm != nil {
+			if _, isArr := prm.Type().Underlying().(*types.Array); isArr {
+				hashParam = prm
+			}
+		}
+	}
+	// the test-and-set may live in a function that UpsertHash forwards to (a method of the registry's own type, a
+	// generic helper): the hash is then the parameter of that function which receives UpsertHash's hash
+	for depth := 0; depth < 3 && len(fd.Body.List) == 1 && hashParam != nil; depth++ {
 		ret, ok := fd.Body.List[0].(*ast.ReturnStmt)
 		if !ok || len(ret.Results) != 1 {
 			break
@@ -582,22 +591,24 @@ func upsertRecordsWhatItReports(c *Ctx, rule string) {
 		fn := calleeOf(info, call)
 		var next *ast.FuncDecl
 		for _, cfd := range allFuncDecls(p) {
-			if fn != nil && info.Defs[cfd.Name] == types.Object(fn) && cfd.Body != nil {
+			if fn != nil && cfd.Body != nil && (info.Defs[cfd.Name] == types.Object(fn) || fn.Origin() != nil && info.Defs[cfd.Name] == types.Object(fn.Origin())) {
 				next = cfd
 			}
 		}
 		if next == nil {
 			break
 		}
-		fd = next
-	}
-	var hashParam types.Object
-	for _, prm := range paramObjs(info, fd) {
-		if prm != nil {
-			if _, isArr := prm.Type().Underlying().(*types.Array); isArr {
-				hashParam = prm
+		var nextHash types.Object
+		prms := paramObjs(info, next)
+		for i, a := range call.Args {
+			if id, ok := ast.Unparen(a).(*ast.Ident); ok && info.ObjectOf(id) == hashParam && i < len(prms) {
+				nextHash = prms[i]
 			}
 		}
+		if nextHash == nil {
+			break
+		}
+		fd, hashParam = next, nextHash
 	}
 	key := funcKey(p, fd) + "|changed-implies-recorded"
 	if hashParam == nil {
@@ -631,8 +642,30 @@ func upsertRecordsWhatItReports(c *Ctx, rule string) {
 			continue
 		}
 		r := den.deref(ret.Results[0], pth.Env)
-		if id, ok := ast.Unparen(r).(*ast.Ident); !ok || id.Name != "true" {
+		if id, ok := ast.Unparen(r).(*ast.Ident); ok && id.Name == "false" {
 			continue
+		}
+		if id, ok := ast.Unparen(r).(*ast.Ident); !ok || id.Name != "true" {
+			// the answer is a computed value: on this path it is `changed` unless a condition the path took says it is false
+			answer, known := false, false
+			rtxt := types.ExprString(ast.Unparen(r))
+			otxt := types.ExprString(ast.Unparen(ret.Results[0]))
+			for _, pc := range pth.Conds {
+				ct := types.ExprString(ast.Unparen(pc.Expr))
+				dt := types.ExprString(ast.Unparen(den.deref(pc.Expr, pth.Env)))
+				if ct == rtxt || ct == otxt || dt == rtxt {
+					answer, known = pc.Val, true
+				}
+				if ue, ok := ast.Unparen(pc.Expr).(*ast.UnaryExpr); ok && ue.Op == token.NOT {
+					ut := types.ExprString(ast.Unparen(ue.X))
+					if ut == rtxt || ut == otxt || types.ExprString(ast.Unparen(den.deref(ue.X, pth.Env))) == rtxt {
+						answer, known = !pc.Val, true
+					}
+				}
+			}
+			if known && !answer {
+				continue
+			}
 		}
 		ntrue++
 		stored := false
